@@ -94,7 +94,8 @@ def run_child(ctx, bins, sc, tag=""):
     else:
         tmpdir = os.path.join(root, "tmp")
         os.makedirs(tmpdir)
-    spec = {"mode": sc.mode, "writer": sc.writer, "root": root, "out": out, "sizes": sc.sizes, "seed": ctx.seed}
+    spec = {"mode": sc.mode, "writer": sc.writer, "root": root, "out": out, "sizes": sc.sizes, "seed": ctx.seed,
+            "maxreads": 50000 if ctx.quick else 150000}
     env = dict(os.environ)
     env.update({"ZZC14_SPEC": json.dumps(spec), "TMPDIR": tmpdir})
     cmd = [bins[PKG[sc.writer]], "-test.run", "^TestZZVerifC14Child$", "-test.count=1", "-test.timeout=10m"]
